@@ -176,6 +176,18 @@ def gen_inputs(tier):
         ("random-bytes", bytes(range(128, 256)).hex()),
         ("nul-bytes", (b'version: "3"\n\x00\x00struct S { a @0: u8, }\n').hex()),
     ]
+    # text given as a STRING, under states of the working directory (the text has no place on disk; only its imports do)
+    fam["cwdstate"] = []
+    for state in ("plain", "removed", "symlink-loop", "dangling-symlink", "directory-called-main.fcp", "valid-main.fcp", "undecodable-main.fcp"):
+        for tl, t in (
+            ("valid", 'version: "3"\nstruct S { a @0: u8, }\n'),
+            ("imports-main", 'version: "3"\nmod main;\nstruct S { a @0: u8, }\n'),
+            ("imports-missing", 'version: "3"\nmod nothere;\nstruct S { a @0: u8, }\n'),
+            ("imports-sub", 'version: "3"\nmod sub.main;\nstruct S { a @0: u8, }\n'),
+            ("syntax", 'version: "3"\nstruct S { a @0 u8, }\n'),
+            ("undeclared", 'version: "3"\nstruct S { a @0: Nope, }\n'),
+        ):
+            fam["cwdstate"].append((state + ":" + tl, json.dumps({"state": state, "text": t})))
     return fam
 
 
@@ -289,6 +301,29 @@ def make_worker(tier):
                     one(S, family, label, text, via=os.path.join(td, "main.fcp"))
                 finally:
                     shutil.rmtree(td, ignore_errors=True)
+            elif family == "cwdstate":
+                d = json.loads(text)
+                td = tempfile.mkdtemp(prefix="fcpmc-c11-")
+                cwd = os.getcwd()
+                try:
+                    os.chdir(td)
+                    st = d["state"]
+                    if st == "removed":
+                        os.rmdir(td)
+                    elif st == "symlink-loop":
+                        os.symlink("main.fcp", "main.fcp")
+                    elif st == "dangling-symlink":
+                        os.symlink("gone.fcp", "main.fcp")
+                    elif st == "directory-called-main.fcp":
+                        os.mkdir("main.fcp")
+                    elif st == "valid-main.fcp":
+                        open("main.fcp", "w").write('version: "3"\nstruct M { m @0: u8, }\n')
+                    elif st == "undecodable-main.fcp":
+                        open("main.fcp", "wb").write(bytes(range(128, 256)))
+                    one(S, family, label, d["text"])
+                finally:
+                    os.chdir(cwd)
+                    shutil.rmtree(td, ignore_errors=True)
             elif family == "module":
                 td = tempfile.mkdtemp(prefix="fcpmc-c11-")
                 try:
@@ -401,7 +436,7 @@ def run(tier):
     fam["module"] += [("module-late-" + l, t.replace('version: "3"\n', 'version: "3"\n\n/* pad */\n\n\nstruct Pad { p @0: u8, }\n\n', 1)) for l, t in fam["literal"] if t.startswith('version: "3"\n')]
     items = []
     fam["module"] += [("module-" + l, t) for l, t in fam["deep"]]
-    for family in ("literal", "deep", "modgraph", "rawfile", "module", "sequence", "mutation", "prefix"):
+    for family in ("literal", "deep", "modgraph", "rawfile", "cwdstate", "module", "sequence", "mutation", "prefix"):
         for label, text in fam[family]:
             items.append((family, label, text))
     r.bounds = {f: len(v) for f, v in fam.items()}
@@ -412,7 +447,7 @@ def run(tier):
     r.rule = (
         "inputs = every prefix (character boundary) of every corpus text (all .fcp files of the repository + the C07 descriptions), every single-token mutation "
         "(delete, duplicate, swap with next, replace by each of %d tokens) at every token position of the example/golden files, every token string over two 12-token alphabets up to the "
-        "length bound after a valid preamble (and up to 3 with none), every literal slot x every value form, every param name x arity, and the same inside an imported module. "
+        "length bound after a valid preamble (and up to 3 with none), every literal slot x every value form, every param name x arity, and the same inside an imported module; six texts given as a STRING under seven states of the working directory (removed, a symlink loop / dangling link / directory / valid / undecodable file called main.fcp). "
         "Each is one execution of the real parser (+ Logger.error on Err); plus every sequence of parses (7 texts, length <= 3/4) through ONE Logger object (fork-snapshot). non-trivial = distinct inputs that are not accepted." % len(MUT_TOKENS)
     )
     r.assumptions = ["termination is decided within 10 s of CPU time per input (wall-clock backstop 120 s)"]
